@@ -26,7 +26,18 @@ Record iobs := mkI
 (* the injected draw: r.Float64() = m / 2^53 *)
 Definition mkU (m : Z) : Q := Qmake m 9007199254740992.
 
-Record case := mkCase { cbase : Z; ccalls : list call; cobs : list iobs }.
+(* forced interleavings: what the executor reports after every schedule action ... *)
+Record sobs := mkS
+  { s_draws : Z; s_last : Z; s_acc : Z; s_tot : Z; s_failing : Z; s_working : Z; s_fail : Z; s_drop : Z }.
+(* ... and per call at the end of the schedule (state 0 not started, 1 parked in its request /
+   holding its promise, 2 returned) *)
+Record tobs := mkT { t_state : Z; t_res : result; t_req : Z; t_fb : Z; t_fbarg : bool }.
+
+Record case := mkCase
+  { cbase : Z; ccalls : list call;
+    cobs : list iobs;               (* sequential history: one observation per call *)
+    csched : list (nat * Z);        (* non-empty: the calls are concurrent, forced schedule *)
+    csobs : list sobs; ctobs : list tobs }.
 
 (* ------------------------------------------------------------ near-ties *)
 
@@ -92,12 +103,89 @@ Fixpoint agrees_from (cfg : config) (base : Z) (w : world) (cs : list call) (os 
   | _, _ => false
   end.
 
-Definition agrees (c : case) : bool :=
+Definition seq_agrees (c : case) : bool :=
   agrees_from cfg_gen (cbase c) (init_world cfg_gen (cbase c)) (ccalls c) (cobs c).
 
+(* ---- forced interleavings.  One schedule action of the executor is: start = read; decide;
+   and, when rejected, mark (the implementation cannot be stopped between them: the gates
+   are in the request callback), finish = mark. *)
+Definition macro (cfg : config) (calls : list call) (w : iworld) (a : nat * Z)
+  : iworld * bool * Z :=    (* new world, near-tie, draws *)
+  let '(tid, dt) := a in
+  match nth tid (i_threads w) (TDone None ctx_obs) with
+  | TInit =>
+    let w1 := istep cfg calls w (tid, dt) in
+    match nth tid (i_threads w1) TInit with
+    | TRead r =>
+      let c := nth tid calls dummy_call in
+      let tie := near_tie cfg r (slast (i_st w1)) (i_clock w1) (k_u c) in
+      let w2 := istep cfg calls w1 (tid, 0) in
+      match nth tid (i_threads w2) TInit with
+      | TDecided _ v =>
+        (if rejected v then istep cfg calls w2 (tid, 0) else w2, tie, draws_of (Some v))
+      | _ => (w2, tie, 0)
+      end
+    | _ => (w1, false, 0)
+    end
+  | _ => (istep cfg calls w (tid, dt), false, 0)
+  end.
+
+Definition sobs_match (base : Z) (w : iworld) (draws : Z) (o : sobs) : bool :=
+  let h := history (swin (i_st w)) (i_clock w) in
+  (draws =? s_draws o) &&
+  ((if slast (i_st w) =? 0 then -1 else slast (i_st w) - base) =? s_last o) &&
+  (w_accepts h =? s_acc o) && (w_total h =? s_tot o) &&
+  (w_failing h =? s_failing o) && (w_working h =? s_working o) &&
+  (sum_fail (swin (i_st w)) (i_clock w) =? s_fail o) &&
+  (sum_drop (swin (i_st w)) (i_clock w) =? s_drop o).
+
+Definition tobs_match (calls : list call) (tid : nat) (ts : tstate) (o : tobs) : bool :=
+  let c := nth tid calls dummy_call in
+  match ts with
+  | TInit => (t_state o =? 0) && (t_req o =? 0) && (t_fb o =? 0)
+  | TRead _ => false
+  | TDecided _ _ => (t_state o =? 1) && (t_req o =? (if is_allow (k_entry c) then 0 else 1)) && (t_fb o =? 0)
+  | TDone _ m => (t_state o =? 2) && result_eqb (o_res m) (t_res o) && (o_req m =? t_req o) &&
+                 (o_fb m =? t_fb o) && implb (0 <? t_fb o) (t_fbarg o)
+  end.
+
+Fixpoint tobs_all (calls : list call) (tid : nat) (ts : list tstate) (os : list tobs) : bool :=
+  match ts, os with
+  | [], [] => true
+  | t :: ts', o :: os' => tobs_match calls tid t o && tobs_all calls (S tid) ts' os'
+  | _, _ => false
+  end.
+
+Fixpoint conc_from (cfg : config) (base : Z) (calls : list call) (w : iworld)
+         (sched : list (nat * Z)) (os : list sobs) (ts : list tobs) : bool :=
+  match sched, os with
+  | [], [] => tobs_all calls 0 (i_threads w) ts
+  | a :: sched', o :: os' =>
+    let '(w1, tie, draws) := macro cfg calls w a in
+    if tie then true
+    else sobs_match base w1 draws o && conc_from cfg base calls w1 sched' os' ts
+  | _, _ => false
+  end.
+
+Definition conc_agrees (c : case) : bool :=
+  conc_from cfg_gen (cbase c) (ccalls c) (init_iworld cfg_gen (cbase c) (length (ccalls c)))
+            (csched c) (csobs c) (ctobs c).
+
+Definition agrees (c : case) : bool :=
+  match csched c with [] => seq_agrees c | _ => conc_agrees c end.
+
 Definition model_obs (c : case) :=
-  map (fun o => (o_res o, o_req o, o_fb o, o_verdict o))
-      (snd (run cfg_gen (init_world cfg_gen (cbase c)) (ccalls c))).
+  match csched c with
+  | [] => map (fun o => (o_res o, o_req o, o_fb o, o_verdict o))
+              (snd (run cfg_gen (init_world cfg_gen (cbase c)) (ccalls c)))
+  | _ => map (fun t => match t with
+                       | TDone _ o => (o_res o, o_req o, o_fb o, o_verdict o)
+                       | TDecided _ v => (ROther, 1, 0, Some v)
+                       | _ => (ROther, 0, 0, None)
+                       end)
+             (i_threads (fold_left (fun w a => fst (fst (macro cfg_gen (ccalls c) w a))) (csched c)
+                                   (init_iworld cfg_gen (cbase c) (length (ccalls c)))))
+  end.
 
 (* ------------------------------------------------------------ prop_ok *)
 
@@ -204,8 +292,95 @@ Fixpoint pcheck_all (cfg : config) (g : geom) (p : pstate) (cs : list call) (os 
   | _, _ => false
   end.
 
+Definition seq_prop_ok (c : case) : bool :=
+  pcheck_all cfg_gen (mkGeom (cbase c) (bucket_duration cfg_gen) gen_buckets)
+             (mkP [] (cbase c) 0 false) (ccalls c) (cobs c).
+
+(* ---- forced interleavings: T1 w.r.t. the window the call read (the calls recorded before
+   its start action) and T2 (per call, and window sums after every action), from the
+   observations only.  Whether a call was rejected at its start is read off its result. *)
+Definition t_rejected (o : tobs) : bool :=
+  (t_state o =? 2) && match t_res o with RUnavailable | RFallback => true | _ => false end.
+
+Definition dummy_tobs : tobs := mkT 0 ROther 0 0 false.
+
+Fixpoint bump (n : nat) (l : list nat) : list nat :=
+  match l, n with
+  | [], _ => []
+  | x :: l', O => S x :: l'
+  | x :: l', S n' => x :: bump n' l'
+  end.
+
+Definition sums6 (g : geom) (l : rlog) (now : Z) (o : sobs) : bool :=
+  let bs := ref_buckets g l now in
+  let h := hist_of bs in
+  (w_accepts h =? s_acc o) && (w_total h =? s_tot o) &&
+  (w_failing h =? s_failing o) && (w_working h =? s_working o) &&
+  (fold_left (fun a b => a + b_fail b) bs 0 =? s_fail o) &&
+  (fold_left (fun a b => a + b_drop b) bs 0 =? s_drop o).
+
+Fixpoint cprop_from (g : geom) (calls : list call) (ts : list tobs) (l : rlog) (clock : Z)
+         (cnt : list nat) (sched : list (nat * Z)) (os : list sobs) : bool * list nat :=
+  match sched, os with
+  | [], [] => (true, cnt)
+  | (tid, dt) :: sched', o :: os' =>
+    let now := clock + dt in
+    let c := nth tid calls dummy_call in
+    let tb := nth tid ts dummy_tobs in
+    let n := nth tid cnt 2%nat in
+    let live := match k_ctx c with CDone => false | _ => true end in
+    let '(l', ok) :=
+      match n with
+      | O => if live && t_rejected tb
+             then (ref_record g l now v_drop, over_limit (ref_history g l now))      (* T1 *)
+             else (l, true)
+      | S O => if live && negb (t_rejected tb)
+               then (ref_record g l now (if counts_as_success (k_entry c) (k_out c) then v_success else v_fail), true)
+               else (l, true)
+      | _ => (l, true)
+      end in
+    if ok && sums6 g l' now o
+    then cprop_from g calls ts l' now (bump tid cnt) sched' os'
+    else (false, cnt)
+  | _, _ => (false, cnt)
+  end.
+
+(* T2 per call at the end of the schedule *)
+Definition tcheck (c : call) (n : nat) (o : tobs) : bool :=
+  let e := k_entry c in
+  match n with
+  | O => (t_state o =? 0) && (t_req o =? 0) && (t_fb o =? 0)
+  | _ =>
+    match k_ctx c with
+    | CDone => (t_state o =? 2) && result_eqb (t_res o) RCtxDone && (t_req o =? 0) && (t_fb o =? 0)
+    | _ =>
+      if t_rejected o then
+        (t_req o =? 0) &&
+        (if has_fallback e then result_eqb (t_res o) RFallback && (t_fb o =? 1) && t_fbarg o
+         else result_eqb (t_res o) RUnavailable && (t_fb o =? 0))
+      else
+        (t_req o =? (if is_allow e then 0 else 1)) && (t_fb o =? 0) &&
+        match n with
+        | S O => t_state o =? 1
+        | _ => (t_state o =? 2) && result_eqb (t_res o) (result_of e (k_out c))
+        end
+    end
+  end.
+
+Fixpoint tcheck_all (calls : list call) (cnt : list nat) (ts : list tobs) : bool :=
+  match calls, cnt, ts with
+  | [], [], [] => true
+  | c :: calls', n :: cnt', o :: ts' => tcheck c n o && tcheck_all calls' cnt' ts'
+  | _, _, _ => false
+  end.
+
+Definition conc_prop_ok (c : case) : bool :=
+  let g := mkGeom (cbase c) (bucket_duration cfg_gen) gen_buckets in
+  let '(ok, cnt) := cprop_from g (ccalls c) (ctobs c) [] (cbase c)
+                               (repeat O (length (ccalls c))) (csched c) (csobs c) in
+  ok && tcheck_all (ccalls c) cnt (ctobs c).
+
 Definition prop_ok (c : case) : bool :=
   (* the window the property talks about is the one the source configures *)
   (gen_window =? prop_window) &&
-  pcheck_all cfg_gen (mkGeom (cbase c) (bucket_duration cfg_gen) gen_buckets)
-             (mkP [] (cbase c) 0 false) (ccalls c) (cobs c).
+  match csched c with [] => seq_prop_ok c | _ => conc_prop_ok c end.
